@@ -392,63 +392,133 @@ pub fn c17_td_mul_units() {
 }
 
 // ---- scratch (to be removed) ----
-#[kani::proof]
-pub fn c17_x_mullemma() {
-    let s: i64 = kani::any();
-    let n: i64 = kani::any();
-    kani::assume(s >= -86_400 && s <= 86_400 && n >= 0 && n < NS);
-    assert!((s + 1) * NS + (n - NS) == s * NS + n, "lemma");
+fn total_ns(secs: i64, nanos: u32) -> i64 {
+    if secs < 0 && nanos > 0 { (secs + 1) * NS + (nanos as i64 - NS) } else { secs * NS + nanos as i64 }
+}
+fn x_shift() -> (TimeDelta, i64) {
+    let secs: i64 = kani::any();
+    let nanos: u32 = kani::any();
+    kani::assume(secs >= -86_400 && secs <= 86_400);
+    kani::assume(nanos < 1_000_000_000);
+    let d = match Duration::new(secs, nanos) {
+        Some(d) => d,
+        None => unreachable!(),
+    };
+    (TimeDelta { months: 0, inner: d }, total_ns(secs, nanos))
 }
 #[kani::proof]
 #[kani::stub(std::fmt::format, crate::util::fmt_stub)]
-pub fn c17_x_add_nonneg() {
+pub fn c17_x_add2() {
     let t = any_time_of_day();
-    let (d, dn) = any_shift();
-    kani::assume(dn >= 0);
+    let (d, dn) = x_shift();
     let exp = t.0 + dn;
     let r = t + d;
-    assert!(r.0 == exp, "time + month-free duration is exact");
+    if exp >= 0 && exp < DAY_NS {
+        assert!(r.0 == exp, "time + month-free duration is exact");
+    }
 }
 #[kani::proof]
 #[kani::stub(std::fmt::format, crate::util::fmt_stub)]
-pub fn c17_x_add_signmag() {
+pub fn c17_x_inv2() {
     let t = any_time_of_day();
-    let ps: i64 = kani::any();
-    let pn: u32 = kani::any();
-    kani::assume(ps >= 0 && ps <= 86_400 && pn < 1_000_000_000);
-    let neg: bool = kani::any();
-    let dd = Duration::new(ps, pn).unwrap();
-    let (d, dn) = if neg { (-dd, (-ps) * NS - pn as i64) } else { (dd, ps * NS + pn as i64) };
-    let exp = t.0 + dn;
-    let r = t + TimeDelta { months: 0, inner: d };
-    assert!(r.0 == exp, "time + month-free duration is exact");
+    let (d, dn) = x_shift();
+    if t.0 + dn >= 0 && t.0 + dn < DAY_NS {
+        assert!(((t + d) - d).0 == t.0, "time + duration - duration is the original time");
+    }
+    if t.0 - dn >= 0 && t.0 - dn < DAY_NS {
+        assert!(((t - d) + d).0 == t.0, "time - duration + duration is the original time");
+    }
 }
-fn x_mulval(k: i32) {
-    let a = any_delta(MUL_LIM);
+/// as_cr law on a block of seconds
+fn x_view(lo: i64, hi: i64, getters: bool) {
+    let (h, m, s) = any_hms();
+    let n: i64 = kani::any();
+    kani::assume(n >= 0 && n < NS);
+    kani::assume(h >= lo && h < hi);
+    let sod = h * 3600 + m * 60 + s;
+    let t = Time(sod * NS + n);
+    match t.as_cr() {
+        Some(nt) => {
+            assert!(nt.num_seconds_from_midnight() as i64 == sod, "as_cr second of day");
+            assert!(nt.nanosecond() as i64 == n, "as_cr nanosecond");
+            assert!(Time::from_cr(&nt).0 == t.0, "Time -> NaiveTime -> Time identity");
+        },
+        None => assert!(false, "a time of day inside 0..86400 s has a NaiveTime"),
+    }
+    if getters {
+        check_components(t, h, m, s, n);
+    }
+}
+#[kani::proof]
+#[kani::stub(std::fmt::format, crate::util::fmt_stub)]
+pub fn c17_x_view6() { x_view(0, 6, false) }
+#[kani::proof]
+#[kani::stub(std::fmt::format, crate::util::fmt_stub)]
+pub fn c17_x_view6g() { x_view(0, 6, true) }
+#[kani::proof]
+#[kani::solver(kissat)]
+#[kani::stub(std::fmt::format, crate::util::fmt_stub)]
+pub fn c17_x_view6gk() { x_view(0, 6, true) }
+/// chrono's own decomposition
+#[kani::proof]
+#[kani::stub(std::fmt::format, crate::util::fmt_stub)]
+pub fn c17_x_naive_hms() {
+    let (h, m, s) = any_hms();
+    let n: u32 = kani::any();
+    kani::assume(n < 1_000_000_000);
+    let nt = NaiveTime::from_num_seconds_from_midnight_opt((h * 3600 + m * 60 + s) as u32, n).unwrap();
+    assert!(nt.hour() as i64 == h && nt.minute() as i64 == m && nt.second() as i64 == s, "hms");
+}
+fn x_internal(d: Duration) -> (i64, i64) {
+    let (vs, vn) = (d.num_seconds(), d.subsec_nanos() as i64);
+    if vn < 0 { (vs - 1, vn + NS) } else { (vs, vn) }
+}
+fn x_mulval2(k: i32) {
+    let months: i32 = kani::any();
+    let secs: i64 = kani::any();
+    let nanos: u32 = kani::any();
+    kani::assume(months >= -1200 && months <= 1200);
+    kani::assume(secs >= -MUL_LIM && secs <= MUL_LIM);
+    kani::assume(nanos < 1_000_000_000);
+    let a = TimeDelta { months, inner: Duration::new(secs, nanos).unwrap() };
     let r = a * k;
-    assert!(r.months == a.months * k, "months scale");
-    let total = (a.inner.num_seconds() * NS + a.inner.subsec_nanos() as i64) * k as i64;
-    let es: i64 = kani::any();
-    let en: u32 = kani::any();
-    kani::assume(es >= -16 * MUL_LIM && es <= 16 * MUL_LIM && en < 1_000_000_000);
-    kani::assume(es * NS + en as i64 == total);
-    let expect = Duration::new(es, en).unwrap();
-    assert!(r.inner == expect, "duration scales exactly, result in chrono's normal form");
+    assert!(r.months == months * k, "months scale");
+    let (rs, rn) = x_internal(r.inner);
+    let e = rs - secs * k as i64;
+    assert!(rn >= 0 && rn < NS, "normal form");
+    assert!(e * NS + rn == nanos as i64 * k as i64, "sub-second part scales with carry e");
 }
 #[kani::proof]
 #[kani::stub(std::fmt::format, crate::util::fmt_stub)]
-pub fn c17_x_mulval_m7() { x_mulval(-7) }
+pub fn c17_x_mulval2_m7() { x_mulval2(-7) }
 #[kani::proof]
 #[kani::stub(std::fmt::format, crate::util::fmt_stub)]
-pub fn c17_x_muldist_m7() {
-    let a = any_delta(MUL_LIM);
-    let b = any_delta(MUL_LIM);
-    assert!(td_eq((a + b) * -7, a * -7 + b * -7), "(a + b) * k == a * k + b * k");
+pub fn c17_x_mulval2_sym() {
+    let k: i32 = kani::any();
+    kani::assume(k >= -8 && k <= 8);
+    x_mulval2(k)
 }
 #[kani::proof]
 #[kani::stub(std::fmt::format, crate::util::fmt_stub)]
-pub fn c17_x_muldist_3() {
-    let a = any_delta(MUL_LIM);
-    let b = any_delta(MUL_LIM);
+pub fn c17_x_muldist_tiny() {
+    let a = any_delta(8);
+    let b = any_delta(8);
     assert!(td_eq((a + b) * 3, a * 3 + b * 3), "(a + b) * k == a * k + b * k");
+}
+fn x_delta_eighths(lim: i64) -> TimeDelta {
+    let months: i32 = kani::any();
+    kani::assume(months >= -1200 && months <= 1200);
+    let secs: i64 = kani::any();
+    let e: u32 = kani::any();
+    kani::assume(secs >= -lim && secs <= lim && e < 8);
+    TimeDelta { months, inner: Duration::new(secs, e * 125_000_000).unwrap() }
+}
+#[kani::proof]
+#[kani::stub(std::fmt::format, crate::util::fmt_stub)]
+pub fn c17_x_muldist_eighths() {
+    let a = x_delta_eighths(MUL_LIM);
+    let b = x_delta_eighths(MUL_LIM);
+    let k: i32 = kani::any();
+    kani::assume(k >= -8 && k <= 8);
+    assert!(td_eq((a + b) * k, a * k + b * k), "(a + b) * k == a * k + b * k");
 }
